@@ -36,9 +36,11 @@ VARIABLES
     boot,    \* "sync" (waiting for the init synchronisation), "init", "done"
     inited,  \* models whose init was logged
     syncSilent, \* TRUE: synchronize calls are not in the trace (projection for properties other than C18)
-    mt         \* TRUE: the run used the thread pool (a key re-check may then precede its logged handler start)
+    mt,        \* TRUE: the run used the thread pool (a key re-check may then precede its logged handler start)
+    xreq,      \* request of the concurrent scheduling thread between its xs and xe events (or NoReq)
+    xout       \* its outcome once it has taken effect ("none" before)
 
-tvars == <<vars, l, boot, inited, syncSilent, mt>>
+tvars == <<vars, l, boot, inited, syncSilent, mt, xreq, xout>>
 
 Ev == Rec[l]
 
@@ -48,6 +50,8 @@ IsEvent(e) == l <= Len(Rec) /\ Rec[l].ev = e /\ l' = l + 1
 (* projection in force declared irrelevant.                                 *)
 Wild(f) == \E i \in 1..Len(Ev.wild) : Ev.wild[i] = f
 
+NoReq == [c |-> "none"]
+
 TraceInit ==
     /\ Init
     /\ l = 1
@@ -55,6 +59,7 @@ TraceInit ==
     /\ inited = {}
     /\ syncSilent = FALSE
     /\ mt = FALSE
+    /\ xreq = NoReq /\ xout = "none"
     /\ TLCSet(1, 0)
 
 (* The fields of the state that Init constrains, re-initialised. *)
@@ -72,6 +77,7 @@ Reset ==
     /\ boot' = "sync" /\ inited' = {}
     /\ syncSilent' = Ev.ss
     /\ mt' = (Ev.threads > 1)
+    /\ xreq' = NoReq /\ xout' = "none"
 
 (* SimInit::init synchronises on the start time before any init code runs. *)
 InitSync ==
@@ -79,7 +85,7 @@ InitSync ==
     /\ boot = "sync"
     /\ Ev.t = 0
     /\ boot' = "init"
-    /\ UNCHANGED <<vars, inited, syncSilent, mt>>
+    /\ UNCHANGED <<vars, inited, syncSilent, mt, xreq, xout>>
 
 ModelInit ==
     /\ IsEvent("init")
@@ -87,7 +93,7 @@ ModelInit ==
     /\ Ev.m \in Models \ inited
     /\ inited' = inited \cup {Ev.m}
     /\ boot' = IF inited' = Models THEN "done" ELSE "init"
-    /\ UNCHANGED <<vars, syncSilent, mt>>
+    /\ UNCHANGED <<vars, syncSilent, mt, xreq, xout>>
 
 Booted == boot = "done"
 
@@ -99,14 +105,14 @@ TCmd ==
          [] Ev.c = "step"   -> DStep
          [] Ev.c = "step_until" -> DStepUntil(Ev.abs, Ev.d)
          [] Ev.c = "process" -> DProcess(Ev.kind, Ev.target, Ev.prog)
-    /\ UNCHANGED <<boot, inited, syncSilent, mt>>
+    /\ UNCHANGED <<boot, inited, syncSilent, mt, xreq, xout>>
 
 TSync ==
     /\ IsEvent("sync")
     /\ Booted
     /\ Wild("t") \/ Ev.t = now
     /\ DoSync(Ev.lag)
-    /\ UNCHANGED <<boot, inited, syncSilent, mt>>
+    /\ UNCHANGED <<boot, inited, syncSilent, mt, xreq, xout>>
 
 TBegin ==
     /\ IsEvent("begin")
@@ -117,14 +123,14 @@ TBegin ==
        \/ /\ HTakeStart(Ev.m, Ev.from)
           /\ Head(mbox[Ev.m][Ev.from]).prog = Ev.prog
     /\ Wild("t") \/ Ev.t = now
-    /\ UNCHANGED <<boot, inited, syncSilent, mt>>
+    /\ UNCHANGED <<boot, inited, syncSilent, mt, xreq, xout>>
 
 TOp ==
     /\ IsEvent("op")
     /\ Booted
     /\ Ev.m \in Models
     /\ HOp(Ev.m, Ev.out)
-    /\ UNCHANGED <<boot, inited, syncSilent, mt>>
+    /\ UNCHANGED <<boot, inited, syncSilent, mt, xreq, xout>>
 
 ResMatches(logged, res) ==
     \/ Wild("res")
@@ -139,7 +145,7 @@ TRet ==
     /\ DReturn
     /\ ResMatches(Ev.res, result)
     /\ Wild("t") \/ Ev.t = now
-    /\ UNCHANGED <<boot, inited, syncSilent, mt>>
+    /\ UNCHANGED <<boot, inited, syncSilent, mt, xreq, xout>>
 
 (* C19: the simulation (with its handles) is dropped when it is at rest: every model, message   *)
 (* and handler future created during the run has been released exactly once, the worker threads *)
@@ -157,13 +163,13 @@ TDrop ==
           /\ Balanced(Ev.threads)
           /\ Ev.late = 0
     /\ boot' = "dropped"
-    /\ UNCHANGED <<vars, inited, syncSilent, mt>>
+    /\ UNCHANGED <<vars, inited, syncSilent, mt, xreq, xout>>
 
 TEnd ==
     /\ IsEvent("end")
     /\ boot = "dropped"
     /\ boot' = "ended"
-    /\ UNCHANGED <<vars, inited, syncSilent, mt>>
+    /\ UNCHANGED <<vars, inited, syncSilent, mt, xreq, xout>>
 
 Silent ==
     /\ Booted
@@ -181,9 +187,29 @@ Silent ==
        \/ syncSilent /\ DoSync(0)
        \/ Quiesce
        \/ \E e \in pendErr : Abort(e)
-    /\ UNCHANGED <<l, boot, inited, syncSilent, mt>>
+    /\ UNCHANGED <<l, boot, inited, syncSilent, mt, xreq, xout>>
 
-TraceNext == Reset \/ InitSync \/ ModelInit \/ TCmd \/ TSync \/ TBegin \/ TOp \/ TRet \/ TDrop \/ TEnd \/ Silent
+(* C08: a request from the scheduling thread.  xs is logged before the call and xe after *)
+(* it returned; the request takes effect atomically somewhere in between (XApply).       *)
+TXStart ==
+    /\ IsEvent("xs") /\ Booted /\ xreq = NoReq
+    /\ xreq' = Ev /\ xout' = "none"
+    /\ UNCHANGED <<vars, boot, inited, syncSilent, mt>>
+
+XApply ==
+    /\ Booted /\ xreq # NoReq /\ xout = "none"
+    /\ \E out \in {"ok", "invalid_time", "null_period"} :
+          /\ XSchedule(xreq.target, xreq.abs, xreq.d, xreq.kind, xreq.per, xreq.slot, xreq.prog, out)
+          /\ xout' = out
+    /\ UNCHANGED <<l, boot, inited, syncSilent, mt, xreq>>
+
+TXEnd ==
+    /\ IsEvent("xe") /\ Booted /\ xreq # NoReq
+    /\ xout = Ev.out
+    /\ xreq' = NoReq /\ xout' = "none"
+    /\ UNCHANGED <<vars, boot, inited, syncSilent, mt>>
+
+TraceNext == TXStart \/ XApply \/ TXEnd \/ Reset \/ InitSync \/ ModelInit \/ TCmd \/ TSync \/ TBegin \/ TOp \/ TRet \/ TDrop \/ TEnd \/ Silent
 
 TraceSpec == TraceInit /\ [][TraceNext]_tvars
 
